@@ -556,6 +556,7 @@ def c14_judge(group, tag):
         for name in report_parsers.PARSERS:
             info[name].setdefault("wellformed", True)
         info["junit"].setdefault("status_mismatch", 0)
+        info["junit"].setdefault("totals_mismatch", 0)
         lt = info["libtest"]
         for key, dflt in (("unpaired", 0), ("n_ok", 0), ("n_failed", 0), ("n_ignored", 0),
                           ("suite_started", 0), ("suite_result", 0)):
